@@ -105,7 +105,7 @@ def array_matches(v, group, cls):
         items.append(cur)
     if len(items) != len(v):
         return False
-    return all(c05.expected_matches(x, g, cls, "array_elem") for x, g in zip(v, items))
+    return all(c05.expected_matches(x, g, cls, "array_elem", engine_literals=False) for x, g in zip(v, items))
 
 
 def align(cls, s_inline, s_par, vals):
@@ -136,7 +136,7 @@ def align(cls, s_inline, s_par, vals):
                 return "misaligned", "placeholder #%d of %r has no literal at the same place in %r" % (k + 1, s_par, s_inline)
             group, i2 = g
             v = vals[k]
-            ok = array_matches(v, group, cls) if isinstance(v, (list, tuple)) and not (len(group) == 1 and group[0].kind == "str" and group[0].value != "{}") else c05.expected_matches(v, group, cls, "where_eq")
+            ok = array_matches(v, group, cls) if isinstance(v, (list, tuple)) and not (len(group) == 1 and group[0].kind == "str" and group[0].value != "{}") else c05.expected_matches(v, group, cls, "where_eq", engine_literals=False)
             if not ok and isinstance(v, datetime.time) and cls == "mysql" and len(group) == 1:
                 ok = group[0].value == v.replace(tzinfo=None).isoformat()
             if not ok:
